@@ -13,7 +13,8 @@ from .ref_der import bitstring_octets
 from .terms import Leaf, Seq, Cho, Of, Ref, Tag, STRING_KINDS
 
 SWITCHES = (
-    'set_textual',          # SET components in textual order (root, then additions) instead of tag order
+    'set_additions_after_root',  # SET: root components in tag order, then the extension additions in textual order
+    #                              (instead of ONE tag order over all components)
     'setof_input',          # SET OF elements in input order
     'named_bits_kept',      # trailing zero bits of a named-bit BIT STRING not removed
     'seq_root2_first',      # SEQUENCE: components after the second marker before the additions
@@ -161,10 +162,11 @@ class DevEncoder(ref_der.Encoder):
 
     def order_set(self, t, ms, present):
         good = super().order_set(t, ms, present)
-        bad = self._impl_order(t, present)
+        root = {m.name for m in t.root} | {m.name for m in t.root2}
+        bad = [p for p in good if p[0].name in root] + [p for p in present if p[0].name not in root]
         if [p[0].name for p in bad] != [p[0].name for p in good]:
-            self.relevant.add('set_textual')
-            if 'set_textual' in self.dev:
+            self.relevant.add('set_additions_after_root')
+            if 'set_additions_after_root' in self.dev:
                 return bad
         return good
 
